@@ -471,7 +471,7 @@ def run(chk):
     ctx = Ctx(chk, brk)
     chk.cov["live_writer_brackets_left_nested_power"] = brk
     rng = chk.rng
-    scale = 48 if chk.tier == "thorough" else 6
+    scale = 150 if chk.tier == "thorough" else 6
     # corpus of past/known failures first
     corpus = [(("mul", ("div", ("var", 2), ("lit", 2)), ("lit", 2)), ("var", 2), "corpus"),
               (("div", ("add", ("var", 2), ("lit", 2)), ("lit", 2)), ("div", ("var", 2), ("lit", 2)), "corpus"),
